@@ -22,7 +22,15 @@ echo "== demo with change" >> $OUT
 ( cd $EV && PYTHONPATH=$EV/src timeout 900 /venv/bin/python demo_*.py 2>&1 | tail -4 >> $OUT; )
 ( cd $EV && PYTHONPATH=$EV/src timeout 900 /venv/bin/python demo_*.py >/dev/null 2>&1; echo "exit=$?" >> $OUT )
 echo "== test-suite with change" >> $OUT
-( cd $EV && PYTHONPATH=$EV/src timeout 1800 /venv/bin/python -m pytest -q -p no:cacheprovider -n 6 -k "not postgres" tests 2>&1 | tail -2 >> $OUT )
+( cd $EV && PYTHONPATH=$EV/src timeout 1800 /venv/bin/python -m pytest -q -p no:cacheprovider -n 6 -k "not postgres" tests 2>&1 | tail -8 > /tmp/ts_$ID.txt )
+grep -E "^FAILED|passed|failed" /tmp/ts_$ID.txt >> $OUT
+FAILED_IDS=$(grep -E "^FAILED" /tmp/ts_$ID.txt | sed 's/^FAILED \([^ ]*\).*/\1/')
+if [ -n "$FAILED_IDS" ]; then
+  # timing-sensitive tests fail under load on the unchanged tree too: re-run the failed ones alone
+  echo "== failed tests re-run alone (with change)" >> $OUT
+  ( cd $EV && PYTHONPATH=$EV/src timeout 900 /venv/bin/python -m pytest -q -p no:cacheprovider $FAILED_IDS 2>&1 | tail -1 >> $OUT )
+fi
+rm -f /tmp/ts_$ID.txt
 for P in "$@"; do
   echo "== check $P (${SEED_TIER:-quick}) against the worktree" >> $OUT
   VF_REPO=$EV VF_EVID=/tmp/vf_evid_$ID ./check $P --tier ${SEED_TIER:-quick} 2>&1 | grep -E "VIOLATION|KNOWN|HARNESS|tier=|key=" | cut -c1-500 >> $OUT
